@@ -55,7 +55,7 @@ func init() {
 		strings.Repeat("ab", 300), strings.Repeat("\\", 9), strings.Repeat("\"", 5),
 		"[NaN]", "x,NaN", "k:NaN", ",-Inf", ":+Inf", "[+Inf,-Inf]", ",null", ":true", "\":\"", "},{", "],[", "\",\"", ": ", ", ", "\n  ", "[\n]", "{ }", "0x1p-2", ".5", "5.", "+1", "1_0", "1e", "-", "+", "e9", "Infinity", "nan",
 	}
-	for _, hex := range []string{"0000", "0022", "002f", "003c", "003e", "0026", "005c", "007f", "00e9", "2028", "2029", "d83d", "dfff", "fffd", "ffff", "003C", "FFFF"} {
+	for _, hex := range []string{"0000", "0022", "002f", "003c", "003e", "0026", "005c", "007f", "00e9", "2028", "2029", "d83d", "dfff", "fffd", "ffff", "003C", "FFFF", "0008", "0009", "000a", "000c", "000d", "000A", "001f", "0001"} {
 		StrPool = append(StrPool, "\\u"+hex, "a\\u"+hex+"b")
 	}
 	StrPool = append(StrPool, "\\n", "\\t", "\\\"", "\\/", "\\b", "\\x41", "\\U0001F600", "<>&", "</script>", "&amp;")
